@@ -390,7 +390,7 @@ class C12(Prop):
     title = "Template rendering follows the documented grammar; bound values stay data"
     fixed_prefix = 1
     quick_budget = 1200
-    thorough_budget = 24000
+    thorough_budget = 20000
     quick_deadline_s = 100
     thorough_deadline_s = 800
     all_branches = ["cond:then", "cond:else", "cond:noelse", "loop:items", "loop:empty", "loop:notlist", "loop:dict",
